@@ -2321,11 +2321,13 @@ where
                 let data = p.to_bytes();
 
                 if bits_allocated == 1 {
-                    // Expand 1-bit samples to 0/255 bytes for all frames
+                    // Expand 1-bit samples to 0/255 bytes for all frames.
+                    // Bits are packed continuously across frame boundaries,
+                    // so only the last byte may contain unused bits.
                     let frame_pixels = (rows as usize) * (cols as usize);
                     let frame_samples = frame_pixels * (samples_per_pixel as usize);
-                    let frame_size = frame_samples / 8;
-                    let frame_size_all = frame_size * (number_of_frames as usize);
+                    let samples_all = frame_samples * (number_of_frames as usize);
+                    let frame_size_all = samples_all.div_ceil(8);
 
                     let frame_data = data.get(0..frame_size_all).context(FrameOutOfRangeSnafu {
                         frame_number: frame_size_all as u32,
@@ -2334,7 +2336,7 @@ where
                     frame_data
                         .iter()
                         .flat_map(|&byte| (0..8).map(move |bit| ((byte >> bit) & 1) * 255))
-                        .take(frame_pixels * number_of_frames as usize)
+                        .take(samples_all)
                         .collect()
                 } else {
                     data.to_vec()
@@ -2476,12 +2478,18 @@ where
                 // Non-encoded, just return the pixel data for a single frame
                 let frame_pixels = (rows as usize) * (cols as usize);
                 let frame_samples = frame_pixels * (samples_per_pixel as usize);
-                let frame_size = if bits_allocated == 1 {
-                    frame_samples / 8
+                // frame offset and size in bytes,
+                // plus the number of leading bits to skip for 1-bit samples
+                // (bits are packed continuously across frame boundaries)
+                let (frame_offset, frame_size, skip_bits) = if bits_allocated == 1 {
+                    let bit_offset = frame_samples * (frame as usize);
+                    let frame_offset = bit_offset / 8;
+                    let frame_end = (bit_offset + frame_samples).div_ceil(8);
+                    (frame_offset, frame_end - frame_offset, bit_offset % 8)
                 } else {
-                    frame_samples * (bits_allocated.div_ceil(8) as usize)
+                    let frame_size = frame_samples * (bits_allocated.div_ceil(8) as usize);
+                    (frame_size * (frame as usize), frame_size, 0)
                 };
-                let frame_offset = frame_size * (frame as usize);
 
                 let data = p.to_bytes();
 
@@ -2496,7 +2504,8 @@ where
                     frame_data
                         .iter()
                         .flat_map(|&byte| (0..8).map(move |bit| ((byte >> bit) & 1) * 255))
-                        .take(frame_pixels)
+                        .skip(skip_bits)
+                        .take(frame_samples)
                         .collect()
                 } else {
                     frame_data.to_vec()
